@@ -10,7 +10,7 @@
 (*         and surviving dimensions keep their unlimited flag;                *)
 (*  - C02/C03/C04/C06: the returned file equals the result the operation's    *)
 (*         definition in PncCore yields on the pre-state.                     *)
-EXTENDS PncCore, TraceLib
+EXTENDS PncInterp, TraceLib
 
 \* ---------------------------------------------------------- normalisation
 NVar(j) ==
@@ -83,6 +83,7 @@ InDomain(e, hp) ==
     \* (on a disk-backed file the names of an expression are netCDF4 variables,
     \* which have no arithmetic: expressions there must slice, "A[:] + 1")
     [] e.act = "eval" -> f.cls # "netcdf" /\ Dom_eval(f, a)
+    [] e.act = "interp" -> Dom_interp(f, a)
     [] OTHER -> FALSE
 
 Decidable(e, hp) ==
@@ -91,6 +92,7 @@ Decidable(e, hp) ==
     [] e.act = "arith" -> Dec_arith(Files(hp, <<e.src>> \o e.others), a)
     [] e.act = "eval" -> Dec_eval(f, a)
     [] e.act = "mask" -> Dec_mask(f, a)
+    [] e.act = "interp" -> Dec_interp(f, a)
     [] OTHER -> TRUE
 
 ResultDiff(e, hp, g) ==
@@ -112,6 +114,7 @@ ResultDiff(e, hp, g) ==
     [] e.act = "mask" -> FileDiff(g, Exp_mask(f, a), "val")
     [] e.act = "arith" -> FileDiff(g, Exp_arith(Files(hp, <<e.src>> \o e.others), a), "val")
     [] e.act = "eval" -> EvalDiff(g, Exp_eval(f, a))
+    [] e.act = "interp" -> FileDiff(g, Exp_interp(f, a), "val")
 
 TStep ==
   LET tr == Traces[tid]
